@@ -55,7 +55,7 @@ CHECKS = {
              "hypothesis); truncated noise never falls below its floor and keeps every draw above it; data after = data before + returned array; "
              "estimates = requested parameters whenever the frame has none (fresh frame, after zero_data, after any signals-only suffix of any "
              "history), otherwise the re-estimate; add_signal keeps them; table noise uses entries of the tables, one common row with a shared "
-             "index, IndexError on unequal lengths, chi2 deviation sqrt(2k) m / k; get_snr and get_intensity are mutually inverse; stream and "
+             "index, IndexError on unequal lengths, chi2 deviation sqrt(2k) m / k (the source's expression squares to 2 m^2/k); with no arrays given every entry is the bundled table's row times dt/obs_dt (source-regenerated; identity at obs_dt, proportional to dt, order-preserving), checked on the implementation over 2-6 draws per interpreter on frames of different dt; get_snr and get_intensity are mutually inverse; stream and "
              "background variances add for every history of sources and every antenna, a background source raising every antenna equally. One "
              "generic model is instantiated with exact rationals (theorems) and binary64 (run against the implementation through a recording "
              "subclass of numpy's Generator: requests, returned arrays, data, estimates and intensities bit for bit, quadrature levels to 1e-15 relative because x**2 is libm's pow). PARTIAL: the "
@@ -114,7 +114,7 @@ CHECKS = {
              "recording writes, and a caller dictionary can be reused (the in-place variant is refuted: c12_record_unrepaired_refuted); a deep "
              "copy's cells read equal to the original's, are fresh, and no write to one object is observable through the other. Tied to the "
              "code by running (history ; recording) and (recording alone) in separate processes and comparing digests and the model's first "
-             "PKTIDX, same backend twice vs fresh backend, copies/pickles of frames from five construction routes mutated on either side, "
+             "PKTIDX, same backend twice vs fresh backend, seeded frame workflows alone vs after other frames of other resolutions in the same interpreter, copies/pickles of frames from five construction routes mutated on either side, "
              "seed sameness/difference sampling, and an AST scan that every generator is created from a seed argument.",
         design="3/C12", technique="Coq heap model (history independence, copy isolation) + cross-process digest comparison"),
     "C05": dict(
@@ -158,7 +158,7 @@ CHECKS = {
              "monotone, never beyond the frame), row 0 is unshifted and the output axis labels its pixels with their input frequencies, a rate "
              "is rejected iff it leaves no channels, a constant-drift path lands within half a channel of one column, metadata are inherited; "
              "spectra / time series are the per-column / per-row sum or mean. The model is compared exactly with get_slice / dedrift / "
-             "integrate on frames with distinct integer pixels (synthetic and loaded from .fil/.h5), and data, axes, rejection, inherited "
+             "integrate on frames with distinct integer pixels (synthetic and loaded from .fil/.h5; normalised integrations are compared to 1e-9 with (x - m)/s for m, s from an independent 3-sigma clipping, for arrays and objects), and data, axes, rejection, inherited "
              "attributes, axis carried by Spectrum/TimeSeries and copy-not-view are evaluated on the implementation.",
         design="3/C17", technique="source-regenerated scalar kernels (tools/py2v.py) proved equal to the model + Coq proof (list routing + round-half-even monotonicity over Q) + exact correspondence on integer-tagged frames"),
     "C16": dict(
